@@ -213,6 +213,14 @@ func azRepresentable(data []byte, pct, layers int) tri {
 				return mustAccept
 			}
 		}
+		// a run of ". " pairs costs two latches and 5 bits per pair (the densest the code offers per byte)
+		if n%2 == 0 && strings.Count(string(data), ". ") == n/2 {
+			bits := 10 + 5*(n/2)
+			need := bits + bits*pct/100 + 11
+			if float64(need)*1.02+64 <= 19968 {
+				return mustAccept
+			}
+		}
 	}
 	return unspecified
 }
@@ -351,7 +359,9 @@ func pdfRepresentable(data []byte, level int) tri {
 			break
 		}
 	}
-	if upper && n > 0 && (n+1)/2+ecc+1 <= 860 {
+	// upper-case text costs exactly one codeword per two characters: representable up to the largest
+	// symbol the library draws (30 rows x 30 columns; ISO allows 928 codewords, so 900 certainly is)
+	if upper && n > 0 && (n+1)/2+ecc+1 <= 900 {
 		return mustAccept
 	}
 	// any byte string is expressible: in the worst case every byte costs a shift and a byte
